@@ -212,4 +212,83 @@ theorem rotU_isometry (c s : Rat) (u o p q : V3) (hu : V3.norm2 u = 1) (hcs : c 
     (s * s * ((p.x - q.x) * (p.x - q.x) + (p.y - q.y) * (p.y - q.y) + (p.z - q.z) * (p.z - q.z)) +
       (1 - c) ^ 2 * (u.x * (p.x - q.x) + u.y * (p.y - q.y) + u.z * (p.z - q.z)) ^ 2) * hu
 
+/-- turning about the same axis through any other point of the axis line is the same map (the arc of an `Angle` datum has
+    no origin of its own: its centre is the foot of the start point on the axis) -/
+theorem rotU_axis_point (c s lam : Rat) (u o p : V3) (hu : V3.norm2 u = 1) :
+    rotU c s u (o + V3.smul lam u) p = rotU c s u o p := by
+  simp only [V3.norm2, V3.dot] at hu
+  apply V3.ext' <;>
+    simp only [rotU, V3.dot, V3.add_x, V3.add_y, V3.add_z, V3.sub_x, V3.sub_y, V3.sub_z, V3.smul_x, V3.smul_y, V3.smul_z,
+      V3.cross_x, V3.cross_y, V3.cross_z]
+  · linear_combination (-(1 - c) * lam * u.x) * hu
+  · linear_combination (-(1 - c) * lam * u.y) * hu
+  · linear_combination (-(1 - c) * lam * u.z) * hu
+
+/-- turning back by the opposite angle (what `Angle.reverse()` describes) undoes the turn -/
+theorem rotU_inverse (c s : Rat) (u o p : V3) (hu : V3.norm2 u = 1) (hcs : c * c + s * s = 1) :
+    rotU c (-s) u o (rotU c s u o p) = p := by
+  simp only [V3.norm2, V3.dot] at hu
+  apply V3.ext' <;>
+    simp only [rotU, V3.dot, V3.add_x, V3.add_y, V3.add_z, V3.sub_x, V3.sub_y, V3.sub_z, V3.smul_x, V3.smul_y, V3.smul_z,
+      V3.cross_x, V3.cross_y, V3.cross_z]
+  · linear_combination ((p.x - o.x) - (u.x * (p.x - o.x) + u.y * (p.y - o.y) + u.z * (p.z - o.z)) * u.x) * hcs +
+      (s * s * (p.x - o.x) + (1 - c) ^ 2 * (u.x * (p.x - o.x) + u.y * (p.y - o.y) + u.z * (p.z - o.z)) * u.x) * hu
+  · linear_combination ((p.y - o.y) - (u.x * (p.x - o.x) + u.y * (p.y - o.y) + u.z * (p.z - o.z)) * u.y) * hcs +
+      (s * s * (p.y - o.y) + (1 - c) ^ 2 * (u.x * (p.x - o.x) + u.y * (p.y - o.y) + u.z * (p.z - o.z)) * u.y) * hu
+  · linear_combination ((p.z - o.z) - (u.x * (p.x - o.x) + u.y * (p.y - o.y) + u.z * (p.z - o.z)) * u.z) * hcs +
+      (s * s * (p.z - o.z) + (1 - c) ^ 2 * (u.x * (p.x - o.x) + u.y * (p.y - o.y) + u.z * (p.z - o.z)) * u.z) * hu
+
+/-! ### corner Jacobians of a hexahedron (blockMesh numbering) -/
+
+def triple (a b c : V3) : Rat := V3.dot (V3.cross a b) c
+
+/-- corner, and its three neighbours in right-handed order: the Jacobian at the corner is the triple product of the edges
+    to them; positive at all eight corners of the unit cube (and of every right-handed block) -/
+def cornerNbrs : List (Nat × Nat × Nat × Nat) :=
+  [(0, 1, 3, 4), (1, 2, 0, 5), (2, 3, 1, 6), (3, 0, 2, 7), (4, 7, 5, 0), (5, 4, 6, 1), (6, 5, 7, 2), (7, 6, 4, 3)]
+
+def cornerJac (pts : List V3) (n : Nat × Nat × Nat × Nat) : Rat :=
+  let p (i : Nat) := pts.getD i V3.zero
+  triple (p n.2.1 - p n.1) (p n.2.2.1 - p n.1) (p n.2.2.2 - p n.1)
+
+/-! ### small helpers of Props/C10.lean -/
+
+theorem length_insertSorted_not_mem (l : String) : ∀ ls : List String, l ∉ ls → (insertSorted l ls).length = ls.length + 1 := by
+  intro ls
+  induction ls with
+  | nil => intro _; rfl
+  | cons x xs ih =>
+    intro hn
+    have hx : l ≠ x := fun h => hn (by simp [h])
+    have hxs : l ∉ xs := fun h => hn (by simp [h])
+    unfold insertSorted
+    split
+    · simp
+    · simp only [hx, if_false, List.length_cons, ih hxs]
+
+theorem length_insertSorted_bounds (l : String) : ∀ ls : List String,
+    1 ≤ (insertSorted l ls).length ∧ (insertSorted l ls).length ≤ ls.length + 1 := by
+  intro ls
+  induction ls with
+  | nil => simp [insertSorted]
+  | cons x xs ih =>
+    unfold insertSorted
+    split
+    · simp
+    · split
+      · simp
+      · simp only [List.length_cons]; omega
+
+theorem cube_le_one (x : Rat) (h : x * x ≤ 1) : x ^ 3 ≤ 1 ∧ (x ^ 3 = 1 → x = 1) := by
+  have hx1 : x ≤ 1 := by nlinarith [sq_nonneg (x - 1), sq_nonneg (x + 1)]
+  have hq : 0 < 1 + x + x * x := by nlinarith [sq_nonneg (x + 1 / 2)]
+  constructor
+  · nlinarith [mul_nonneg (sub_nonneg.mpr hx1) (le_of_lt hq)]
+  · intro h3
+    have : (1 - x) * (1 + x + x * x) = 0 := by ring_nf; ring_nf at h3; linarith
+    rcases mul_eq_zero.mp this with h' | h'
+    · linarith
+    · exact absurd h' (ne_of_gt hq)
+
+
 end CBV.C10
